@@ -251,6 +251,7 @@ func run(r *core.Run) {
 	valueOps(r)
 	pendingOps(r)
 	mysqlOps(r)
+	formsOps(r)
 	n := r.N(40, 1500)
 	for i := 0; i < n; i++ {
 		sessionCase(r, i)
